@@ -120,7 +120,10 @@ class C11:
                         ops.append(["advance", t, rng.choice([1, 2])] if rng.random() < 0.8 else ["vis", t, rng.random() < 0.5, False])
                 else:
                     r = rng.random()
-                    if r < 0.5:
+                    if r < 0.08:
+                        # any thread may start / stop the shared display (both are idempotent)
+                        ops.append(["dstart"] if rng.random() < 0.7 else ["dstop"])
+                    elif r < 0.5:
                         ops.append(simple(t))
                     elif r < 0.6:
                         ops.append(["capture", [simple(t)]])
@@ -132,6 +135,11 @@ class C11:
                         ops.append(["update", frame(), rng.random() < 0.7])
                     else:
                         ops.append(["advance", t, 1] if rng.random() < 0.5 else ["vis", t, rng.random() < 0.5, True])
+            if kind == "C" and t != 0 and rng.random() < 0.15:
+                ops.insert(0, ["dstart"])  # races with the owner's start()
+            if kind == "C" and t == 0 and rng.random() < 0.1:
+                j = rng.randrange(len(ops) + 1)
+                ops[j:j] = [["dstop"], ["dstart"]]
             threads.append(ops)
         init = frame() if cfg["display"] == "live" else None
         return {"kind": kind, "cfg": cfg, "threads": threads, "init": init,
@@ -200,7 +208,7 @@ class Multi:
         self.done = 0
         self.stdout_sentinel, self.stderr_sentinel = sys.stdout, sys.stderr
         self.probes = {"writes": 0, "captures": 0, "blocks": 0, "hooked_prints": 0, "print_in_capture_while_live": 0,
-                       "overlap_explained": 0, "phantom_explained": 0, "post_probe_ok": 0, "record_compared": 0}
+                       "overlap_explained": 0, "phantom_explained": 0, "extra_starts": 0, "extra_stops": 0, "post_probe_ok": 0, "record_compared": 0}
         self.oracle = None
         self.display = None
         self.started = False
@@ -318,6 +326,10 @@ class Multi:
                 self.done += 1
                 if self.done == self.n:
                     self.all_done.set()
+                    if self.oracle is not None:
+                        # whoever finishes last makes sure the display is stopped (a thread may
+                        # have started it again after the owner's block was left)
+                        self.do(t, ["dstop"])
                     self._post()
         return run
 
@@ -329,6 +341,8 @@ class Multi:
         o.begin_op("start", [("frame",)] if self.cfg["display"] == "progress" else [])
         try:
             with self.display:
+                if self.sim.me().tid not in o.pushed_by:
+                    o.stages = []  # another thread had already started it
                 o.end_op()
                 self.started = True
                 if self.kind == "B":
@@ -345,6 +359,8 @@ class Multi:
         finally:
             if o.tracker:
                 o.tracker.stop_end()
+            if self.sim.me().tid not in o.popped_by:
+                o.stages = []  # another thread had already stopped it
             o.end_op()
             self.started = False
             self.display_done = True
@@ -406,7 +422,7 @@ class Multi:
                 self.captured_tokens.add(tok)
             if o is not None:
                 o.begin_op(["capture"], [])
-                if self.started and not self.display_done:
+                if o.hooked:
                     self.probes["print_in_capture_while_live"] += 1
                     # known finding F7: a print inside capture() while the display is live renders
                     # the frame into the capture and updates the remembered shape although nothing
@@ -425,6 +441,29 @@ class Multi:
                 self._v("capture", "capture-leaked-to-file", "thread %d wrote %r to the file from inside capture()" % (t, mine[0][2][:80]))
             self.captures.append((t, exp, got))
             if o is not None:
+                o.end_op()
+        elif k == "dstart":
+            self.probes["extra_starts"] += 1
+            if o.tracker:
+                o.tracker.start_event()
+                o.tracker.print_begin()
+            o.begin_op("start", [("frame",)] if self.cfg["display"] == "progress" else [])
+            self.display.start()
+            if self.sim.me().tid not in o.pushed_by:
+                o.stages = []  # it was already started: a no-op
+            o.end_op()
+        elif k == "dstop":
+            self.probes["extra_stops"] += 1
+            if o.tracker:
+                o.tracker.stop_begin()
+            o.begin_op("stop", [("final",), ("erase",) if self.cfg["transient"] else ("freeze",)])
+            try:
+                self.display.stop()
+            finally:
+                if o.tracker:
+                    o.tracker.stop_end()
+                if self.sim.me().tid not in o.popped_by:
+                    o.stages = []  # it was not running: a no-op
                 o.end_op()
         elif k == "sleep":
             if o is not None:
